@@ -2180,5 +2180,109 @@ def r4c(cx):
 RS.rules.sort(key=lambda r: r.id)
 
 
+# =====================================================================================
+# C01.R8 - the separators used to split a word are those in effect after its own expansion
+# =====================================================================================
+_IFS_CONST = re.compile(r'^yash_env::variable::(constants::)?IFS$')
+_POLL = ['core::future::future::Future::poll', '*::Future::poll']
+_ENV_WRAP = [re.compile(r'^' + re.escape(INIT) + r'Env::<.*>::new$')]
+
+
+@RS.rule('C01.R8', 'K-ORDER', 'the $IFS value that splits a word is read after the initial expansion of that word has completed '
+         '(${IFS=x} and $((IFS=..)) in the word itself decide how the word is split)')
+def r8(cx):
+    F = cx.F
+    fn = EXP + 'expand_word_multiple'
+    body = F.inlined(fn)
+    cx.fn(body.fn)
+    for f_ in getattr(body, 'inlined_from', []):
+        cx.fn(f_)
+    du = Q.DefUse(body)
+    ex = Q.find_calls(body, EXPAND_CALL)
+    cx.site('%s: initial expansion x%d%s' % (fn, len(ex), (' at ' + body.loc(ex[0][1])) if ex else ''))
+    if len(ex) != 1:
+        cx.violation(fn, 'missing-step:initial expansion', 'expand_word_multiple must perform the initial expansion exactly once per word',
+                     loc=body.loc(body.d))
+        return
+    eb, et = ex[0]
+    # completion of the expansion: the Ready edge of the poll of the future created by the expand call (a plain call if not async)
+    t_future = Q.forward_taint(body, {et['dest']['l']})
+    done_edges = []
+    for pb, pt in Q.find_calls(body, _POLL):
+        if not any(Q.operand_local(a) in t_future for a in pt['a']):
+            continue
+        for sb in sorted(body.reachable(pt['to']) if pt.get('to') is not None else ()):
+            ec = Q.edge_condition(F, body, du, sb)
+            if ec is None:
+                continue
+            org, labels = ec
+            if org['k'] == 'discr' and org['pl']['l'] == pt['dest']['l']:
+                for tgt, labs in labels.items():
+                    if labs == [('variant', 'Ready')]:
+                        done_edges.append((sb, tgt))
+    is_async = body.fn != fn
+    cx.require(bool(done_edges) or not is_async, 'the await of the initial expansion (Ready edge of its poll) was not found in %s' % body.fn)
+    cx.site('%s: expansion completed on %s' % (fn, ', '.join('bb%d->bb%d' % e for e in done_edges) or 'return of the expand call'))
+
+    def completed_before(blk):
+        if done_edges:
+            return any(Q.edge_dominates(body, u, v, blk) for u, v in done_edges)
+        return blk != eb and body.dominates(eb, blk)
+
+    # where the separators enter field splitting: the Ifs argument of split_into, or everything captured by the closure that calls it
+    targets = []          # (description, local, loc)
+    for sb, st in Q.find_calls(body, SPLIT_INTO):
+        l = Q.operand_local(st['a'][1]) if len(st['a']) > 1 else None
+        cx.require(l is not None, 'the Ifs argument of split_into is not a local')
+        targets.append(('split_into', l, body.loc(st)))
+    if not targets:
+        for lb in F.logical(fn):
+            if lb.fn != body.fn and Q.find_calls(lb, SPLIT_INTO):
+                for b, j, s_ in body.stmts():
+                    if s_['k'] == 'assign' and s_['rv']['k'] == 'agg' and s_['rv'].get('def') == lb.fn:
+                        for o in s_['rv'].get('ops') or []:
+                            if Q.operand_local(o) is not None:
+                                targets.append(('closure calling split_into', Q.operand_local(o), body.loc(s_)))
+    cx.site('%s: field splitting receives its separators at %s' % (fn, sorted({x[2] for x in targets}) or 'no site'))
+    if not targets:
+        cx.violation(fn, 'missing-step:field splitting', 'expand_word_multiple does not split the expanded word', loc=body.loc(body.d))
+        return
+    target_locals = {l for _, l, _ in targets}
+
+    # reads of the shell state: calls that are handed the environment / its variable set (by reference) or the name IFS
+    env_seeds = {i for i in range(1, len(body.locals)) if re.search(r'(^|[ &<(])(yash_env::Env|yash_env::variable::VariableSet|'
+                                                                    + re.escape(INIT) + r'Env)\b', body.locals[i]['ty'])}
+    cx.require(bool(env_seeds), 'no local of type Env / VariableSet in %s' % body.fn)
+    t_env = Q.forward_taint(body, env_seeds, through_calls=_ENV_WRAP)
+    name_seeds = {s_['lhs']['l'] for b, j, s_ in body.stmts() if s_['k'] == 'assign' and
+                  any(_IFS_CONST.match(o.get('cdef') or '') for o in Q.rvalue_operands(s_['rv']))}
+    t_name = Q.forward_taint(body, name_seeds, through_calls=[]) if name_seeds else set()
+    reads = []
+    for b, t in body.calls():
+        if Q.callee_is(t, EXPAND_CALL + _ENV_WRAP + _POLL):
+            continue
+        by_name = any(_IFS_CONST.match(a.get('cdef') or '') or Q.operand_local(a) in t_name for a in t['a'])
+        by_env = any(Q.operand_local(a) in t_env for a in t['a'])
+        if not (by_name or by_env):
+            continue
+        flows = Q.forward_taint(body, {t['dest']['l']})
+        if not (flows & target_locals):
+            continue
+        reads.append((b, t, by_name))
+    cx.site('%s: %d read(s) of the shell variables reach the separators of split_into: %s'
+            % (fn, len(reads), ', '.join('%s at %s' % (H.short(t['f'].get('def') or t['f'].get('decl') or '?'), body.loc(t)) for _, t, _ in reads)))
+    if not any(n for _, _, n in reads):
+        cx.violation(fn, 'no-ifs-read', 'the separators given to field splitting are not looked up under the name IFS', loc=targets[0][2])
+    for b, t, _ in reads:
+        if not completed_before(b):
+            cx.violation(fn, 'ifs-read-before-expansion', 'the value of $IFS used to split the word is looked up before the initial expansion of '
+                         'that word has completed: `unset IFS; v=a-b; printf "[%s]" $v${IFS=-}c` must print [a][b][c], and '
+                         '`IFS=; echo ${IFS:=:}$v` must split at the newly assigned colon (POSIX XCU 2.6: field splitting follows '
+                         'parameter and arithmetic expansion, which may assign IFS)', loc=body.loc(t))
+
+
+RS.rules.sort(key=lambda r: r.id)
+
+
 # --- explanation addendum (generated catalogue in DESIGN.md reads RS.explanation)
 RS.explanation += ' Added after the seed waves and the audit: the pattern word of a trim modifier is expanded on every path (R4b); an expansion error in a redirection operand is handled as an expansion error (R4c).'
